@@ -312,7 +312,8 @@ func verifC13CrashWithLeftover() {
 	fs, root := verifC13Setup()
 	dir, name := "d0", "a"
 	path := root + "/" + dir + "/" + name
-	left := verifNondetBytes("left", 1+verifChoose(4))
+	// thorough: leftovers up to 7 bytes, data up to 4 bytes, two more crash points
+	left := verifNondetBytes("left", 1+verifChoose(4+3*verifTier()))
 	verifKernelPlantFile(root+"/"+name+".tmp", left, uint64(len(left)))
 	verifKernelPlantFile(path+".tmp", left, uint64(len(left)))
 	oldExists := verifChoose(2) == 1
@@ -321,8 +322,8 @@ func verifC13CrashWithLeftover() {
 		old = verifNondetBytes("old", verifChoose(3))
 		verifKernelPlantFile(path, old, uint64(len(old)))
 	}
-	data := verifNondetBytes("data", verifChoose(3))
-	verifKernelCrashAt(1 + verifChoose(8))
+	data := verifNondetBytes("data", verifChoose(3+2*verifTier()))
+	verifKernelCrashAt(1 + verifChoose(8+2*verifTier()))
 	crashed := verifCrashed(func() { fs.AtomicCreate(dir, name, data) })
 	verifAssert("leftover-crash/instant-old-or-new", verifOr(verifStateIs(path, oldExists, old), verifStateIs(path, true, data)))
 	if !crashed {
